@@ -138,4 +138,57 @@ def Sentence.wf (s : Sentence) : Bool :=
   && (match s.limit with | none => true | some t => (parseUint31 t).isSome)
   && (match s.offset with | none => true | some t => (parseUint31 t).isSome)
 
+
+/-! ### Well-formed query objects: what the text form can express
+
+`Cond.wf` / `Query.wf` delimit the queries for which `ParseQuery(q.Print())` gives `q` back. Outside are
+exactly the classes recorded as findings: groups with fewer than two members, `In` lists with fewer than two
+items or with commas in an item, the keys `and or not ( )`, a `Not` directly inside a `Not`, limits/offsets
+≥ 2^31 — and conditions that do not pass `Check` or were not produced by `Where` (ill-typed operands). -/
+
+def noComma (t : Tok) : Bool := t.all (fun c => c != ',')
+
+def int64 (i : Int) : Bool := decide (-(2 ^ 63 : Int) ≤ i) && decide (i < 2 ^ 63)
+
+/-- A plain word: non-empty, none of the README's control characters. -/
+def plainWord (t : Tok) : Bool := !t.isEmpty && !t.any isSpecial
+
+/-- The operand is of the type `Where` stores for this operator. For floats and regexes the standard-library
+    contracts: a `%g` text is a plain word that `ParseFloat` maps to a float printing as the same text;
+    the source of a compiled regexp compiles. -/
+def typedLeaf (O : Oracle) (op : Nat) (v : Val) : Bool :=
+  match kindOf op, v with
+  | some .int, .int i => int64 i
+  | some .float, .float t => decide (O.fcanon t = some t) && plainWord t
+  | some .string, .str _ => true
+  | some .slice, .strs l => decide (2 ≤ l.length) && l.all noComma
+  | some .regex, .regex t => O.reok t
+  | some .bool, .bool _ => true
+  | some .exists, .none => true
+  | _, _ => false
+
+mutual
+/-- `neg`: the condition stands directly inside a `Not`. -/
+def Cond.wfN (O : Oracle) (neg : Bool) : Cond → Bool
+  | .leaf key op v => !isStructural key && typedLeaf O op v
+  | .bad _ => false
+  | .and cs => decide (2 ≤ cs.length) && wfL O cs
+  | .or cs => decide (2 ≤ cs.length) && wfL O cs
+  | .not c => !neg && Cond.wfN O true c
+def wfL (O : Oracle) : List Cond → Bool
+  | [] => true
+  | c :: cs => Cond.wfN O false c && wfL O cs
+end
+
+def Cond.wf (O : Oracle) (c : Cond) : Bool := Cond.wfN O false c
+
+def Query.wf (O : Oracle) (q : Query) : Bool :=
+  q.dbName.all (fun c => c != ':')
+  && (match q.where_ with | none => true | some c => c.wf O)
+  && decide (q.limit < 2 ^ 31) && decide (q.offset < 2 ^ 31)
+
+/-- The documented normalisation of `Print`: non-positive limit/offset are not printed (and mean "none"). -/
+def Query.norm (q : Query) : Query :=
+  { q with limit := if q.limit > 0 then q.limit else 0, offset := if q.offset > 0 then q.offset else 0 }
+
 end PB.Query
